@@ -7,4 +7,6 @@ require (
 	pgregory.net/rapid v1.3.0
 )
 
+require golang.org/x/sys v0.31.0 // indirect
+
 replace example.com/scion-time => /repo
